@@ -18,14 +18,21 @@ func init() {
 	register("C04", "exploration", 8*time.Minute, 45*time.Minute, runC04)
 }
 
-// genMergeInventory builds n containers with time-ordered logs, unique line ids c<i>#<j>,
+// genMergeInventory builds n containers with time-ordered logs, line ids c<i>#<j> (or identical lines across replicas),
 // ties within and across containers and some empty logs.
 func genMergeInventory(r *vk.RNG, n int, maxRecs int) []CSpec {
 	inv := make([]CSpec, n)
 	base := int64(1700000000) * 1e9
 	nonMono := r.Chance(1, 4)
+	// one inventory in five: replicas that log the same lines at the same instants (records are then
+	// identical across containers, and a record may be repeated inside one container as well);
+	// records are told apart by the container they carry, never by their text
+	shared := r.Chance(1, 5)
 	for i := range inv {
 		cs := CSpec{ID: fmt.Sprintf("id%02d", i), Name: fmt.Sprintf("/c%d", i), Image: "img", State: "running", Labels: map[string]string{"idx": fmt.Sprint(i)}}
+		if r.Chance(1, 6) {
+			cs.Aliases = []string{fmt.Sprintf("/c%d/alias", (i+1)%n), fmt.Sprintf("/other/c%d", i)}
+		}
 		k := r.Range(0, maxRecs)
 		if r.Chance(1, 6) {
 			k = 0
@@ -48,7 +55,18 @@ func genMergeInventory(r *vk.RNG, n int, maxRecs int) []CSpec {
 				ts -= int64(r.Range(1, 3)) * 7e8 // this container's clock stepped back
 			}
 			typ := byte(1 + r.Intn(2))
-			cs.Frames = append(cs.Frames, Frame{Type: typ, TS: ts, Body: fmt.Sprintf("c%d#%d", i, j)})
+			body := fmt.Sprintf("c%d#%d", i, j)
+			if shared {
+				ts = base + int64(j)*1e9
+				body = fmt.Sprintf("r%d", j)
+				typ = 1
+			}
+			if j > 0 && r.Chance(1, 8) {
+				// the same line again in the same clock tick
+				prev := cs.Frames[len(cs.Frames)-1]
+				ts, body, typ = prev.TS, prev.Body, prev.Type
+			}
+			cs.Frames = append(cs.Frames, Frame{Type: typ, TS: ts, Body: body})
 		}
 		inv[i] = cs
 	}
@@ -102,55 +120,47 @@ func abandonMerge(fd *FakeDocker, k int) int {
 
 // checkMerged is the offline checker: exactly-once, time order, per-container order, origin labels.
 func checkMerged(inv []CSpec, got []mergedRec) string {
-	want := map[string]int64{}
-	owner := map[string]string{}
-	for _, c := range inv {
-		for _, f := range c.Frames {
-			want[f.Body] = f.TS
-			owner[f.Body] = c.ID
-		}
-	}
 	ordered := true
+	byID := map[string]CSpec{}
+	total := 0
 	for _, c := range inv {
+		byID[c.ID] = c
+		total += len(c.Frames)
 		for j := 1; j < len(c.Frames); j++ {
 			if c.Frames[j].TS < c.Frames[j-1].TS {
 				ordered = false
 			}
 		}
 	}
-	seen := map[string]int{}
-	next := map[string]int{} // container -> index of next expected own record
-	byID := map[string]CSpec{}
-	for _, c := range inv {
-		byID[c.ID] = c
-	}
+	// A record is identified by the container whose labels it carries and its position in that
+	// container's log: the k-th record delivered for a container must be the k-th record it wrote.
+	// That is exactly-once + own order + origin labels, and it holds for identical lines too.
+	next := map[string]int{}
 	for i, g := range got {
-		ts, ok := want[g.Line]
+		c, ok := byID[g.CID]
 		if !ok {
-			return fmt.Sprintf("position %d: record %q was never written", i, g.Line)
+			return fmt.Sprintf("position %d: record %q carries container id %q, which is not in the inventory", i, g.Line, g.CID)
 		}
-		seen[g.Line]++
-		if seen[g.Line] > 1 {
-			return fmt.Sprintf("position %d: record %q delivered twice", i, g.Line)
+		k := next[g.CID]
+		if k >= len(c.Frames) {
+			return fmt.Sprintf("position %d: container %s delivered %d records but wrote %d (record %q ts=%d delivered again or invented)", i, g.CID, k+1, len(c.Frames), g.Line, g.TS)
 		}
-		if ts != g.TS {
-			return fmt.Sprintf("position %d: record %q has timestamp %d, written with %d", i, g.Line, g.TS, ts)
+		if f := c.Frames[k]; f.Body != g.Line || f.TS != g.TS {
+			what := "own order broken, a record missing, or a record altered"
+			if k > 0 && c.Frames[k-1].Body == g.Line && c.Frames[k-1].TS == g.TS {
+				what = "record delivered twice"
+			}
+			return fmt.Sprintf("position %d: record #%d of container %s is (%d, %q) but (%d, %q) was delivered: %s", i, k, g.CID, f.TS, f.Body, g.TS, g.Line, what)
 		}
-		if g.CID != owner[g.Line] {
-			return fmt.Sprintf("position %d: record %q carries labels of container %q, produced by %q", i, g.Line, g.CID, owner[g.Line])
-		}
+		next[g.CID]++
 		if ordered && i > 0 && got[i-1].TS > g.TS {
 			return fmt.Sprintf("position %d: timestamp decreases (%d after %d)", i, g.TS, got[i-1].TS)
 		}
-		c := byID[g.CID]
-		if k := next[g.CID]; k >= len(c.Frames) || c.Frames[k].Body != g.Line {
-			return fmt.Sprintf("position %d: container %s's own order broken at %q", i, g.CID, g.Line)
-		}
-		next[g.CID]++
 	}
-	for line := range want {
-		if seen[line] == 0 {
-			return fmt.Sprintf("record %q missing from the merged stream (%d of %d delivered)", line, len(got), len(want))
+	for _, c := range inv {
+		if next[c.ID] != len(c.Frames) {
+			f := c.Frames[next[c.ID]]
+			return fmt.Sprintf("record #%d (%d, %q) of container %s missing from the merged stream (%d of %d delivered)", next[c.ID], f.TS, f.Body, c.ID, len(got), total)
 		}
 	}
 	return ""
@@ -159,6 +169,8 @@ func checkMerged(inv []CSpec, got []mergedRec) string {
 func seqString(got []mergedRec) string {
 	var sb strings.Builder
 	for _, g := range got {
+		sb.WriteString(g.CID)
+		sb.WriteByte(':')
 		sb.WriteString(g.Line)
 		sb.WriteByte(' ')
 	}
